@@ -17,7 +17,7 @@ TARGET = "/vfs/out/models.py"
 FILE_FAULTS = ["missing", "malformed", "lookup_missing_key", "lookup_scalar", "non_object_sample", "scalar_root",
                "non_string_key", "reused_file_lookup_missing_key", "reused_file_lookup_scalar",
                "lookup_null", "lookup_zero", "lookup_empty_string", "lookup_false", "null_root"]
-ARG_FAULTS = ["bad_merge", "bad_merge_arg", "custom_without_generator", "generator_without_custom", "bad_structure",
+ARG_FAULTS = ["bad_merge", "bad_merge_arg", "bad_merge_after_good", "bad_merge_before_good", "bad_merge_between_good", "bad_merge_arg_after_good", "custom_without_generator", "generator_without_custom", "bad_structure",
               "bad_framework", "bad_input_format", "no_file_arg", "bad_max_literals", "bad_custom_generator_path"]
 STEP_FAULTS = ["generate", "merge_models", "generate_names", "compose", "codegen"]
 
@@ -125,6 +125,14 @@ def scen_faults(ch, params, out):
             argv += ["--merge", "fuzzy"]
         elif k == "bad_merge_arg":
             argv += ["--merge", "percent_abc"]
+        elif k == "bad_merge_after_good":           # an invalid entry in a list that also has valid ones
+            argv += ["--merge", "percent", "fuzzy"]
+        elif k == "bad_merge_before_good":
+            argv += ["--merge", "fuzzy", "percent_80"]
+        elif k == "bad_merge_between_good":
+            argv += ["--merge", "exact", "similar_10", "number_5"]
+        elif k == "bad_merge_arg_after_good":
+            argv += ["--merge", "exact", "number_ten"]
         elif k == "custom_without_generator":
             argv[argv.index("-f") + 1] = "custom"
         elif k == "generator_without_custom":
